@@ -32,6 +32,9 @@ type LogPlan struct {
 	PreStart      int       `json:"pre_start,omitempty"`
 	InitLevel     int       `json:"init_level"`
 	Fmt           bool      `json:"fmt,omitempty"` // log through the formatting variants
+	// AdapterPanic k > 0: the output adapter panics on its k-th call, once (the package recovers and restarts its
+	// writer). Only in runs that cannot fill the buffer.
+	AdapterPanic int `json:"adapter_panic,omitempty"`
 }
 
 // LogOp is one producer operation.
@@ -62,6 +65,9 @@ func (H) Generate(prop string, rng *rand.Rand, tier string) any {
 	defer func() { p.Fmt = rng.IntN(2) == 0 }()
 	np := 1 + rng.IntN(8)
 	budget := []int{30, 120, 600, 3000}[rng.IntN(4)]
+	if budget <= 120 && rng.IntN(4) == 0 {
+		p.AdapterPanic = 1 + rng.IntN(12)
+	}
 	if tier != "thorough" && budget > 1500 {
 		budget = 1500
 	}
@@ -208,6 +214,8 @@ type state struct {
 	out                        []outRec
 	startRet, shutInv, shutRet uint64
 	shutReturned               bool
+	adapterCalls               int
+	adapterPanicked            bool
 }
 
 // useFmt: this run logs through the formatting variants (Infof, tracer.Warningf, ...)
@@ -263,6 +271,13 @@ func (H) Execute(prop string, plan any, rc *simkit.RunCtx) {
 			time.Sleep(delay)
 		}
 		s.out = append(s.out, outRec{Seq: simrt.Seq(), Text: msg.Text(), Sev: int(msg.Severity()), Dup: duplicates, Tracer: log.VerifSimTracerLines(msg)})
+		s.adapterCalls++
+		if p.AdapterPanic > 0 && s.adapterCalls == p.AdapterPanic && !strings.HasPrefix(msg.Text(), "log: writer failed") {
+			// the line counts as handed over; the adapter breaks afterwards
+			s.adapterPanicked = true
+			rc.Fault("adapter-panic")
+			panic("injected adapter panic")
+		}
 	}))
 	if p.Sched {
 		log.EnableScheduling()
@@ -489,10 +504,14 @@ func (H) Check(prop string, plan any, rc *simkit.RunCtx) {
 		return
 	}
 	if !s.shutReturned {
+		note := ""
+		if s.adapterPanicked && len(s.calls) >= log.VerifSimBufferCap() && strings.Contains(rc.Stats.StallInfo, "log/input.go") {
+			note = " (the output adapter panicked while the buffer was full: the writer's manager reports the failure through the buffer that only the writer drains)"
+		}
 		if s.shutInv != 0 {
-			rc.Fail("C20.shutdown-hang", "Shutdown never returned", rc.Stats.StallInfo)
+			rc.Fail("C20.shutdown-hang", "Shutdown never returned"+note, rc.Stats.StallInfo)
 		} else if rc.Stats.Stalled {
-			rc.Fail("C20.stall", "loggers blocked for ever before shutdown was requested", rc.Stats.StallInfo)
+			rc.Fail("C20.stall", "loggers blocked for ever before shutdown was requested"+note, rc.Stats.StallInfo)
 		}
 		return
 	}
@@ -513,6 +532,8 @@ func (H) Check(prop string, plan any, rc *simkit.RunCtx) {
 				return
 			}
 			lastOp[pi] = oi
+		} else if s.adapterPanicked && strings.HasPrefix(o.Text, "log: writer failed") {
+			// the package's own report of the failed writer
 		} else if !strings.HasPrefix(o.Text, "pre-") {
 			rc.Fail("C20.foreign-line", "the adapter received a line nobody logged", o.Text)
 			return
@@ -576,6 +597,33 @@ func (H) Check(prop string, plan any, rc *simkit.RunCtx) {
 			rc.Probe("line-ambiguous")
 		}
 	}
+	if s.adapterPanicked {
+		// after an adapter panic: how many enabled lines are missing altogether?
+		deficit, first := 0, ""
+		var payloads []string
+		for payload := range b {
+			payloads = append(payloads, payload)
+		}
+		sort.Strings(payloads)
+		for _, payload := range payloads {
+			if d := b[payload].lo - occ[payload]; d > 0 && !torn[payload] {
+				// (lines that a mix of old and new level settings disables are the other listed finding)
+				deficit += d
+				if first == "" {
+					first = payload
+				}
+			}
+		}
+		switch {
+		case deficit == 1:
+			rc.Fail("C20.lost", "an enabled line logged between Start and Shutdown was not handed to the adapter (exactly one line, in a run in which the adapter panicked once: the line the writer had read ahead is dropped together with the failed writer)", fmt.Sprintf("%s", first))
+			return
+		case deficit > 1:
+			rc.Fail("C20.lost", "enabled lines logged between Start and Shutdown were not handed to the adapter after the adapter had panicked once (more than the one line read ahead)", fmt.Sprintf("%d lines, first %s", deficit, first))
+			return
+		}
+		rc.Probe("adapter-panic-survived")
+	}
 	for payload, bb := range b {
 		n := occ[payload]
 		if n > bb.hi {
@@ -600,6 +648,9 @@ func (H) Check(prop string, plan any, rc *simkit.RunCtx) {
 		}
 	}
 	for text := range occ {
+		if s.adapterPanicked && strings.HasPrefix(text, "log: writer failed") {
+			continue
+		}
 		if b[text] == nil {
 			rc.Fail("C20.foreign-line", "the adapter received a line nobody logged", text)
 			return
